@@ -1,14 +1,14 @@
 #!/bin/bash
 # usage: tools/benigneval.sh <dir with patch.diff> <property ids...>
 # A behaviour-preserving refactoring must not raise an alarm: runs the quick checks against the
-# patched scratch worktree and appends one line per (patch, property) to /tmp/benign/results.txt
+# patched scratch worktree and appends one line per (patch, property) to ${BRESULTS:-/tmp/benign/results.txt}
 D=$(realpath "$1"); shift
 WT=/tmp/ev/bwt_$$
 mkdir -p /tmp/ev
 git -C /repo worktree add --detach $WT HEAD -q || exit 9
 trap "git -C /repo worktree remove --force $WT" EXIT
 cd $WT
-git apply $D/patch.diff || { echo "$D PATCH-DOES-NOT-APPLY" >> /tmp/benign/results.txt; exit 8; }
+git apply $D/patch.diff || { echo "$D PATCH-DOES-NOT-APPLY" >> ${BRESULTS:-/tmp/benign/results.txt}; exit 8; }
 T=$(/venv/bin/python -m pytest -q -p no:cacheprovider 2>&1 | tail -1)
 cd /verif
 for PID in "$@"; do
@@ -16,6 +16,6 @@ for PID in "$@"; do
   V=$(grep -c "^VIOLATION" /tmp/ev/bcheck.$$)
   X=$(grep -E "^VIOLATION|^counterexample|INCONCLUSIVE|HARNESS-ERROR" /tmp/ev/bcheck.$$ | head -3 | cut -c1-220 | tr '\n' '|')
   S=$(tail -1 /tmp/ev/bcheck.$$)
-  echo "$(basename $(dirname $D))/$(basename $D) $PID rc=$RC violations=$V tests='$T' :: $S :: $X" >> /tmp/benign/results.txt
+  echo "$(basename $(dirname $D))/$(basename $D) $PID rc=$RC violations=$V tests='$T' :: $S :: $X" >> ${BRESULTS:-/tmp/benign/results.txt}
 done
 rm -f /tmp/ev/bcheck.$$
